@@ -321,3 +321,20 @@ Definition c16_reencode_pred (args : list val) : bool :=
       | _ => false end
   | _ => false
   end.
+
+(** ---------------- C08 ---------------- *)
+(** args: the observation of a result in a cold run (caches cleared before every call), in a
+    warm run (tiny shared caches, cache_configure interleaved) when it was created, and of
+    the same warm object at the very end: all three are the same *)
+Definition c08_pred (args : list val) : bool :=
+  match args with
+  | [cold; warm_first; warm_again] => val_eqb cold warm_first && val_eqb warm_first warm_again
+  | _ => false
+  end.
+(** args: the comparison operators of two results when created, after hashing only the left
+    operand, at the end (cold and warm): all the same *)
+Definition c08_cmp_pred (args : list val) : bool :=
+  match args with
+  | a :: rest => forallb (val_eqb a) rest
+  | [] => false
+  end.
